@@ -257,6 +257,9 @@ def one_call(rng, g, dp, lab, emit, col):
             kw[key] = v
             vals.append((v, cls)); expect.append((key.upper(), v))
         args = (rng.choice(["towards", "away"]),) if kind == "probe" else ()
+        if rng.random() < 0.25:
+            # a user comment on the command (moves and the table-driven G92 / G28 / G38.x alike)
+            kw["comment"] = rng.choice(["work zero", "touch plate", "home Z", "pass 2 of 3", "x=1.5"])
         ok = emit(name, lambda: getattr(g, name)(*args, **kw), expect, valid, vals)
         if kind == "probe" and ok:
             g.set_axis(x=0, y=0, z=0)
